@@ -76,17 +76,16 @@ def storeOp (args : List String) : Option String :=
     pure (fN s.mapIndex ++ " " ++ fList fF (mapVector s) ++ " " ++ fList fF (medianVector s) ++ " " ++
           fList fSummary s.params ++ " " ++ fList (fList fF) s.tracedata ++ " " ++ fList fF s.weights)) args
 
-/-- `c09.scatter dst src a` → `a` after `a[dst] = a[src]` -/
-def scatterOp (args : List String) : Option String :=
+/-- `c09.restore index a` → `a[index.argsort()]` -/
+def restoreOp (args : List String) : Option String :=
   run (do
-    let dst ← listOf nat
-    let src ← listOf nat
+    let index ← listOf nat
     let a ← listOf flt
-    pure (fList fF (scatter dst src a))) args
+    pure (fList fF (restoreOrder index a))) args
 
 def ops : List Op :=
   [("c09.quantile", quantileOp), ("c09.summary", summaryOp), ("c09.argmax", argmaxOp), ("c09.wmean", wmeanOp),
    ("c09.interp", interpOp), ("c09.sort", sortOp), ("c09.cdf", cdfOp), ("c09.store", storeOp),
-   ("c09.scatter", scatterOp)]
+   ("c09.restore", restoreOp)]
 
 end Taurex.Ops.C09
